@@ -892,8 +892,13 @@ def _min_at_return(ex, x):
   q = x.path.qual
   if not x.path.decide(st.is_none):
     k0 = -st.inner.e
-    X = x.env.selector_components.suffix(st.inner.e)
-    R = join_split_facts(x, r, X)
+    # r = '.'.join(selector_components[start:]) with start = -k0 and 1 <= k0 <= n: the slice is
+    # the last k0 components (list slicing), and splitting their join gives them back (assumed
+    # string fact, stated for exactly this list)
+    R = split_dot(r)
+    x.path.assume(z3.Implies(z3.And(1 <= k0, k0 <= n), z3.And(R.len == k0, sym.forall(
+        [j_], z3.Implies(z3.And(0 <= j_, j_ < k0), R.arr[j_] == L.arr[n - k0 + j_]),
+        patterns=[R.arr[j_]]))))
     Rb = StrList.box(R)
     # rp over the components of r coincides with rp over the last k0 components of the name
     j0 = x.path.fresh_const('ind_j', sym.IntS)
